@@ -140,10 +140,55 @@ Proof. reflexivity. Qed.
 
 Notation fl_horner := (lagrange_horner fp fzero fone fadd fmul fsub fopp fdiv finv feqb fp_field feqb_eq).
 
+(* the fast evaluation strategy of the model equals the code-shaped interpolation, for every input *)
+Add Field FpField : fp_field.
+Lemma finv_zero : finv fzero = fzero.
+Proof. apply fp_eq. vm_compute. reflexivity. Qed.
+Lemma finv_one : finv fone = fone.
+Proof. apply fp_eq. vm_compute. reflexivity. Qed.
+Lemma fold_left_ext_fn {A B} (f g : A -> B -> A) : (forall a b, f a b = g a b) -> forall l a, fold_left f l a = fold_left g l a.
+Proof. intros H l. induction l as [|b l IH]; intros a; cbn [fold_left]; [reflexivity|]. rewrite H. apply IH. Qed.
+Lemma finv_mul a b : finv (fmul a b) = fmul (finv a) (finv b).
+Proof.
+  destruct (fp_eq_dec a fzero) as [->|Ha].
+  - replace (fmul fzero b) with fzero by ring. rewrite finv_zero. ring.
+  - destruct (fp_eq_dec b fzero) as [->|Hb].
+    + replace (fmul a fzero) with fzero by ring. rewrite finv_zero. ring.
+    + field. split; assumption.
+Qed.
+Lemma fold_mul_acc (g : fp -> fp) l : forall acc,
+  fold_left (fun acc b => fmul acc (g b)) l acc = fmul acc (fold_left (fun acc b => fmul acc (g b)) l fone).
+Proof.
+  induction l as [|b l IH]; intros acc; cbn [fold_left]; [ring|].
+  rewrite IH. rewrite (IH (fmul fone (g b))). ring.
+Qed.
+Lemma fold_fmul_acc l : forall acc, fold_left fmul l acc = fmul acc (fold_left fmul l fone).
+Proof.
+  induction l as [|b l IH]; intros acc; cbn [fold_left]; [ring|].
+  rewrite IH. rewrite (IH (fmul fone b)). ring.
+Qed.
+Lemma basis0_fast_eq a l : basis0 fp fone fmul fsub finv a l = basis0_fast a l.
+Proof.
+  unfold basis0, basis0_fast.
+  induction l as [|b l IH]; cbn [fold_left].
+  - rewrite finv_one. ring.
+  - rewrite (fold_mul_acc (fun b => fmul b (finv (fsub b a)))). cbv beta. rewrite IH.
+    rewrite (fold_fmul_acc l (fmul fone b)).
+    rewrite (fold_mul_acc (fun b => fsub b a) l (fmul fone (fsub b a))). cbv beta.
+    rewrite !finv_mul, finv_one.
+    set (P := fold_left fmul l fone). set (Q := finv (fold_left (fun acc b0 => fmul acc (fsub b0 a)) l fone)).
+    set (I := finv (fsub b a)). ring.
+Qed.
+Lemma finterp_fast_eq l : finterp_pairs_fast l = finterp_pairs l.
+Proof.
+  unfold finterp_pairs_fast, finterp_pairs, interp_pairs.
+  apply fold_left_ext_fn. intros acc pr. rewrite basis0_fast_eq. reflexivity.
+Qed.
+
 Lemma interp_one polys (shs : list share) i pl :
   NoDup (map sx shs) -> Forall (on_polys polys) shs -> nth_error polys i = Some pl ->
   (length pl <= length shs)%nat ->
-  finterp_pairs (map (fun s => (sx s, nth i (sy s) fzero)) shs) = fhorner pl fzero.
+  finterp_pairs_fast (map (fun s => (sx s, nth i (sy s) fzero)) shs) = fhorner pl fzero.
 Proof.
   intros Hnd Hon Hi Hlen.
   assert (E : map (fun s => (sx s, nth i (sy s) fzero)) shs = map (fun a => (a, fhorner pl a)) (map sx shs)).
@@ -153,7 +198,7 @@ Proof.
     2:{ rewrite map_length. apply nth_error_Some. congruence. }
     rewrite (map_nth (fun pl0 => fhorner pl0 (sx s)) polys pl i). f_equal.
     apply nth_error_nth. exact Hi. }
-  unfold finterp_pairs. rewrite E. unfold fhorner. apply fl_horner; [exact Hnd|rewrite map_length; exact Hlen].
+  rewrite finterp_fast_eq. unfold finterp_pairs. rewrite E. unfold fhorner. apply fl_horner; [exact Hnd|rewrite map_length; exact Hlen].
 Qed.
 
 Lemma flat_map_seq_nth {A B} (f : A -> list B) (g : nat -> list B) (l : list A) :
